@@ -119,6 +119,7 @@ enum Code
     ASSIGN,
     CALL,
     DESTROY,
+    LOAD_TEMP, // dl(path).load<T>(missing): the failed lookup unwinds through the temporary dl
     CODE_COUNT
 };
 
@@ -162,7 +163,9 @@ const char* property_ids()
 
 static const int NSLOT = 6;
 static const char* LIBS[] = { "libvfa.so", "libvfb.so", "libvf_missing.so", "<self>" };
-static const char* SYMS[] = { "vf_value", "vf_other", "vf_not_defined" };
+// the last two are defined in the process (the harness binary, libstdc++) but in none of the libraries
+static const char* SYMS[] = { "vf_value", "vf_other", "vf_not_defined", "vf_self_value", "_ZSt9terminatev" };
+static const int NSYM = 5;
 
 std::string describe(const Case& c)
 {
@@ -180,10 +183,14 @@ std::string describe(const Case& c)
         switch (op.code)
         {
         case OPEN:
-            o << " open(s" << op.a % NSLOT << "," << LIBS[op.arg % 4] << ")";
+            o << " open(s" << op.a % NSLOT << "," << LIBS[op.arg % 4] << (op.b / NSLOT % 2 ? ", exception read late" : "") << ")";
             break;
         case LOAD:
-            o << " load(s" << op.a % NSLOT << "<-s" << op.b % NSLOT << "," << SYMS[op.arg % 3] << ")";
+            o << " load(s" << op.a % NSLOT << "<-s" << op.b % NSLOT << "," << SYMS[op.arg % NSYM]
+              << (op.b / NSLOT % 2 ? ", exception read late" : "") << ")";
+            break;
+        case LOAD_TEMP:
+            o << " dl(" << LIBS[op.arg % 2] << ").load(" << SYMS[2 + op.a % 3] << ")";
             break;
         case COPY:
             o << " copy(s" << op.a % NSLOT << "<-s" << op.b % NSLOT << ")";
@@ -228,6 +235,12 @@ Case generate(vf::Src& src, const std::string& mode)
             c.value = std::string(static_cast<std::size_t>(lens[src.index(6)]), static_cast<char>('a' + src.irange(0, 5)));
             c.value[c.value.size() / 2] = '=';
         }
+        // a value the library's own source text mentions
+        if (!vf::source_literals().empty() && src.coin(12))
+        {
+            c.value = src.pick(vf::source_literals());
+            c.value.erase(std::remove(c.value.begin(), c.value.end(), '\0'), c.value.end());
+        }
         if (c.value.empty())
             c.value = "v";
         c.dflt = src.coin(50) ? "" : (src.coin(50) ? "dflt" : bytes(0, 8, false));
@@ -239,13 +252,17 @@ Case generate(vf::Src& src, const std::string& mode)
         if (src.skip())
             continue; // lets the shrinker drop operations
         Op op;
-        op.code = static_cast<int>(src.weighted({ 25, 25, 15, 8, 12, 15 }));
+        op.code = static_cast<int>(src.weighted({ 25, 25, 15, 8, 14, 13, 3 }));
         op.a = src.irange(0, NSLOT - 1);
         op.b = src.irange(0, NSLOT - 1);
+        if (src.coin(40))
+            op.b += NSLOT; // a failure of this operation is looked at later, not in the handler
         if (op.code == OPEN)
             op.arg = static_cast<int>(src.weighted({ 35, 30, 20, 15 }));
         else if (op.code == LOAD)
-            op.arg = static_cast<int>(src.weighted({ 45, 30, 25 }));
+            op.arg = static_cast<int>(src.weighted({ 48, 28, 10, 8, 6 }));
+        else if (op.code == LOAD_TEMP)
+            op.arg = src.irange(0, 1);
         c.ops.push_back(op);
     }
     return c;
@@ -299,6 +316,8 @@ static std::string check_dl(const Case& c, vf::Ctx& ctx)
         std::array<Slot, NSLOT> slot;
         std::vector<Event> events;
         std::size_t step = 0;
+        // exceptions kept beyond their handler: (copy of the exception, the diagnostic the loader gave)
+        std::vector<std::pair<nitro::dl::exception, std::string>> kept;
         bool failure_seen_between = false;
         std::set<int> libs_open_before_failure;
 
@@ -393,6 +412,8 @@ static std::string check_dl(const Case& c, vf::Ctx& ctx)
                     if (lib != 2)
                         err = std::string("opening ") + LIBS[lib] + " raised: " + e.what() + " / " +
                               e.dlerror() + when;
+                    else if (op.b / NSLOT % 2)
+                        kept.emplace_back(e, L.last_dlerror);
                     else if (e.dlerror().empty() || e.dlerror() != L.last_dlerror)
                         err = "the exception of a failed open carries " + vf::vis(e.dlerror(), 100) +
                               ", the loader's diagnostic was " + vf::vis(L.last_dlerror, 100) + when;
@@ -408,15 +429,19 @@ static std::string check_dl(const Case& c, vf::Ctx& ctx)
                 if (!slot[b].lib || a == b)
                     break;
                 int ev = slot[b].event;
-                int sidx = op.arg % 3;
+                int sidx = op.arg % NSYM;
                 int lib = events[static_cast<std::size_t>(ev)].lib;
                 bool exists = lib == 3 ? false : (sidx == 0 || (sidx == 1 && lib == 1));
                 const char* name = SYMS[sidx];
-                if (lib == 3 && sidx == 0)
+                if (lib == 3 && (sidx == 0 || sidx == 3))
                 {
                     name = "vf_self_value";
                     exists = true;
                 }
+                else if (lib == 3 && sidx == 4)
+                    name = SYMS[2]; // through the handle of the program itself the name would resolve
+                if (!exists && sidx >= 3)
+                    ctx.tag("dl:name-defined-elsewhere-in-the-process");
                 slot[a].clear();
                 try
                 {
@@ -433,6 +458,8 @@ static std::string check_dl(const Case& c, vf::Ctx& ctx)
                     failure_seen_between = true;
                     if (exists)
                         err = std::string("looking up ") + name + " raised: " + e.what() + when;
+                    else if (op.b / NSLOT % 2)
+                        kept.emplace_back(e, L.last_dlerror);
                     else if (e.dlerror().empty() || e.dlerror() != L.last_dlerror)
                         err = "the exception of a failed lookup carries " + vf::vis(e.dlerror(), 100) +
                               ", the loader's diagnostic was " + vf::vis(L.last_dlerror, 100) + when;
@@ -496,6 +523,32 @@ static std::string check_dl(const Case& c, vf::Ctx& ctx)
                     ctx.tag("dl:destroy");
                 }
                 break;
+            case LOAD_TEMP:
+            {
+                int lib = op.arg % 2;
+                const char* name = SYMS[2 + op.a % 3];
+                std::string diag;
+                try
+                {
+                    // the library object is a temporary: the failed lookup unwinds through its destructor
+                    // (dlclose) before the handler runs
+                    (void)nitro::dl::dl(path_of(lib)).load<int()>(name);
+                    err = std::string("looking up the missing symbol ") + name + " in a temporary dl did not raise" + when;
+                }
+                catch (const nitro::dl::exception& e)
+                {
+                    ctx.tag("dl:load-failed-in-temporary-dl");
+                    failure_seen_between = true;
+                    if (e.dlerror().empty() || e.dlerror() != L.last_dlerror)
+                        err = "the exception of a failed lookup in a temporary dl carries " + vf::vis(e.dlerror(), 100) +
+                              ", the loader's diagnostic was " + vf::vis(L.last_dlerror, 100) + when;
+                }
+                catch (const std::exception& e)
+                {
+                    err = std::string("a symbol lookup raised another exception type: ") + e.what() + when;
+                }
+                break;
+            }
             }
             if (err.empty())
                 verify(when);
@@ -521,6 +574,15 @@ static std::string check_dl(const Case& c, vf::Ctx& ctx)
             for (auto& s : slot)
                 s.clear();
             verify(" (after all objects were destroyed)");
+        }
+        // the exceptions that were put aside still carry the diagnostic of their own failure
+        for (auto& k : kept)
+        {
+            ctx.tag("dl:exception-read-late");
+            if (err.empty() && (k.first.dlerror().empty() || k.first.dlerror() != k.second))
+                err = "an exception kept beyond its handler carries " + vf::vis(k.first.dlerror(), 100) +
+                      " after later loader calls, the loader's diagnostic at the time was " + vf::vis(k.second, 100) +
+                      " (" + describe(c) + ")";
         }
     }
     lw::active = false;
